@@ -89,3 +89,40 @@ Print Assumptions C14_key_collision_refuted.
 Print Assumptions C14_reeval_changed_value_raises.
 Print Assumptions C14_reeval_same_value_ok.
 Print Assumptions C14_eval_first_inserts.
+
+(* nested arguments with user-controlled parts and dict keys (Model/ReEval.v mirrors GenericValue._re_eval) *)
+From V Require Model.ReEval Proofs.ReEvalProofs.
+(* an argument without user-controlled parts is accepted exactly when it evaluates to the same value again - and then nothing changes *)
+Theorem C14_reeval_nested_no_unm_iff :
+  forall (s : ReEval.st) (v : ReEval.vt) (s' : ReEval.st),
+  ReEval.has_unm s = false -> (ReEval.re_eval s v = Some s' <-> (ReEval.plain s = v /\ s' = s)).
+Proof. exact ReEvalProofs.re_eval_no_unm_iff. Qed.
+Print Assumptions C14_reeval_nested_no_unm_iff.
+
+Theorem C14_reeval_nested_changed_raises :
+  forall (s : ReEval.st) (v : ReEval.vt), ReEval.has_unm s = false -> ReEval.plain s <> v -> ReEval.re_eval s v = None.
+Proof. exact ReEvalProofs.re_eval_changed_raises. Qed.
+Print Assumptions C14_reeval_nested_changed_raises.
+
+(* in general: accepted exactly when the new value agrees with the stored one on every managed part (keys of dicts included) *)
+Theorem C14_reeval_nested_accepts_iff :
+  forall (s : ReEval.st) (v : ReEval.vt),
+  (exists s', ReEval.re_eval s v = Some s') <-> (exists s', ReEval.skeleton s' = ReEval.skeleton s /\ ReEval.plain s' = v).
+Proof. exact ReEvalProofs.re_eval_accepts_iff. Qed.
+Print Assumptions C14_reeval_nested_accepts_iff.
+
+(* after an accepted re-evaluation the stored value reads as the new value (nothing stale is kept), and only contents of user-controlled parts changed *)
+Theorem C14_reeval_nested_refreshes :
+  forall (s : ReEval.st) (v : ReEval.vt) (s' : ReEval.st), ReEval.re_eval s v = Some s' -> ReEval.plain s' = v /\ ReEval.skeleton s' = ReEval.skeleton s.
+Proof. intros s v s' H. split; [exact (ReEvalProofs.re_eval_plain s v s' H) | exact (ReEvalProofs.re_eval_skeleton s v s' H)]. Qed.
+Print Assumptions C14_reeval_nested_refreshes.
+
+Theorem C14_reeval_nested_example :
+  let s := ReEval.SNode 1 [10; 20]%Z [ReEval.SLeaf 1%Z; ReEval.SNode 0 [] [ReEval.SUnm (ReEval.VLeaf 5%Z); ReEval.SLeaf 2%Z]] in
+  ReEval.re_eval s (ReEval.VNode 1 [10; 20]%Z [ReEval.VLeaf 1%Z; ReEval.VNode 0 [] [ReEval.VLeaf 7%Z; ReEval.VLeaf 2%Z]])
+  = Some (ReEval.SNode 1 [10; 20]%Z [ReEval.SLeaf 1%Z; ReEval.SNode 0 [] [ReEval.SUnm (ReEval.VLeaf 7%Z); ReEval.SLeaf 2%Z]])
+  /\ ReEval.re_eval s (ReEval.VNode 1 [10; 21]%Z [ReEval.VLeaf 1%Z; ReEval.VNode 0 [] [ReEval.VLeaf 7%Z; ReEval.VLeaf 2%Z]]) = None
+  /\ ReEval.re_eval s (ReEval.VNode 1 [10; 20]%Z [ReEval.VLeaf 1%Z; ReEval.VNode 0 [] [ReEval.VLeaf 7%Z; ReEval.VLeaf 3%Z]]) = None
+  /\ ReEval.re_eval s (ReEval.VNode 1 [10; 20]%Z [ReEval.VLeaf 1%Z; ReEval.VNode 0 [] [ReEval.VLeaf 7%Z]]) = None.
+Proof. exact ReEvalProofs.re_eval_example. Qed.
+Print Assumptions C14_reeval_nested_example.
